@@ -284,7 +284,7 @@ func run(rt *rapid.T) {
 }
 
 func TestRollback(t *testing.T) {
-	ev.Rapid(t, 1500, 20000)
+	ev.Rapid(t, 4000, 20000)
 	rapid.Check(t, run)
 }
 
@@ -462,7 +462,7 @@ func TestRollbackSizeSweep(t *testing.T) {
 // one object's life with many commits, collection passes and checkpoint / commit / rollback cycles. Every cycle is judged
 // like the single one of TestRollback.
 func TestRevisitedStates(t *testing.T) {
-	ev.Rapid(t, 400, 6000)
+	ev.Rapid(t, 1200, 6000)
 	rapid.Check(t, func(rt *rapid.T) {
 		db := memkv.New()
 		var m *wmkit.Machine
